@@ -1,3 +1,462 @@
-pub fn run(_cli: common::Cli) -> ! {
-    common::machinery("not built yet")
+//! C19: targets cross the gRPC adapter boundary unchanged.
+//!
+//! The real `GrpcDiscoveryAdapter` / `GrpcStrategyAdapter` talk to an in-process tonic server
+//! generated from the repository's own .proto files; the product of target shapes is enumerated
+//! in all three directions (discovery reply, strategy request, strategy reply).
+use common::{Cli, Report, Violation, par_for};
+use passage_adapters::Target;
+use passage_adapters::discovery::DiscoveryAdapter;
+use passage_adapters::strategy::StrategyAdapter;
+use passage_adapters_grpc::{GrpcDiscoveryAdapter, GrpcStrategyAdapter};
+use serde_json::{Value, json};
+use std::collections::HashMap;
+use std::net::{IpAddr, SocketAddr};
+use std::sync::atomic::{AtomicU64, Ordering};
+use std::sync::{Arc, Mutex};
+use uuid::Uuid;
+
+pub mod proto {
+    tonic::include_proto!("scrayosnet.passage.adapter");
+}
+use proto::discovery_server::{Discovery, DiscoveryServer};
+use proto::strategy_server::{Strategy, StrategyServer};
+
+#[derive(Clone, Debug)]
+enum Reply {
+    Echo(usize),
+    Foreign(proto::Target),
+    None,
+}
+
+#[derive(Default)]
+struct MockState {
+    discovery_reply: Vec<proto::Target>,
+    select_reply: Option<Reply>,
+    last_select: Option<proto::SelectRequest>,
+}
+
+#[derive(Clone)]
+struct Mock(Arc<Mutex<MockState>>);
+
+#[tonic::async_trait]
+impl Discovery for Mock {
+    async fn get_targets(&self, _r: tonic::Request<proto::TargetRequest>) -> Result<tonic::Response<proto::TargetsResponse>, tonic::Status> {
+        Ok(tonic::Response::new(proto::TargetsResponse { targets: self.0.lock().unwrap().discovery_reply.clone() }))
+    }
+}
+
+#[tonic::async_trait]
+impl Strategy for Mock {
+    async fn select_target(&self, r: tonic::Request<proto::SelectRequest>) -> Result<tonic::Response<proto::SelectResponse>, tonic::Status> {
+        let req = r.into_inner();
+        let mut st = self.0.lock().unwrap();
+        let target = match st.select_reply.clone().unwrap_or(Reply::None) {
+            Reply::Echo(i) => req.targets.get(i).cloned(),
+            Reply::Foreign(t) => Some(t),
+            Reply::None => None,
+        };
+        st.last_select = Some(req);
+        Ok(tonic::Response::new(proto::SelectResponse { target }))
+    }
+}
+
+// ---------------------------------------------------------------------------------------
+
+#[derive(Clone, Debug)]
+struct WireTarget {
+    id: String,
+    host: Option<String>,
+    port: u32,
+    meta: Vec<(String, String)>,
+}
+
+fn to_proto(t: &WireTarget) -> proto::Target {
+    proto::Target {
+        identifier: t.id.clone(),
+        address: t.host.as_ref().map(|h| proto::Address { hostname: h.clone(), port: t.port }),
+        meta: t.meta.iter().map(|(k, v)| proto::MetaEntry { key: k.clone(), value: v.clone() }).collect(),
+    }
+}
+
+#[derive(Debug, PartialEq)]
+enum Want {
+    /// must arrive with exactly this address
+    Addr(SocketAddr),
+    /// must be rejected
+    Err,
+    /// error, or exactly this address
+    ErrOr(SocketAddr),
+    /// only "no panic" is judged
+    Unjudged,
+}
+
+fn classify_host(host: &Option<String>, port: u32) -> (Want, &'static str) {
+    let Some(h) = host else { return (Want::Err, "address-absent") };
+    if port > 65_535 {
+        return (Want::Err, "port-out-of-range");
+    }
+    let p = port as u16;
+    if let Ok(ip) = h.parse::<IpAddr>() {
+        let fam = if ip.is_ipv4() { "ipv4" } else { "ipv6" };
+        return (Want::Addr(SocketAddr::new(ip, p)), fam);
+    }
+    // bracketed or scoped literals: error or the same address
+    let inner = h.trim_start_matches('[').trim_end_matches(']');
+    let unscoped = inner.split('%').next().unwrap_or(inner);
+    if (h.starts_with('[') || h.contains('%')) && unscoped.parse::<IpAddr>().is_ok() {
+        return (Want::ErrOr(SocketAddr::new(unscoped.parse().unwrap(), p)), "bracketed-or-scoped");
+    }
+    // names that could be DNS names are not judged
+    if !h.is_empty() && h.chars().all(|c| c.is_ascii_alphanumeric() || c == '-' || c == '.') && h.chars().any(|c| c.is_ascii_alphabetic()) {
+        return (Want::Unjudged, "dns-name");
+    }
+    (Want::Err, "malformed-host")
+}
+
+fn meta_map(m: &[(String, String)]) -> Option<HashMap<String, String>> {
+    let mut out = HashMap::new();
+    for (k, v) in m {
+        if out.insert(k.clone(), v.clone()).is_some() {
+            return None; // duplicated key: no defined map value
+        }
+    }
+    Some(out)
+}
+
+fn hosts() -> Vec<Option<String>> {
+    let mut v: Vec<Option<String>> = ["10.1.2.3", "0.0.0.0", "255.255.255.255", "::1", "2001:db8::1", "2001:0db8:0000:0000:0000:0000:0000:0001", "::ffff:1.2.3.4", "::", "fe80::1%eth0", "[::1]", "localhost", "mc.example.org", "", "1.2.3", "1.2.3.4:5", " 1.2.3.4", "1.2.3.4 ", "::1:25565", "256.1.1.1"]
+        .iter()
+        .map(|s| Some(s.to_string()))
+        .collect();
+    v.push(None);
+    v
+}
+
+fn metas() -> Vec<Vec<(String, String)>> {
+    let kv = |k: &str, v: &str| (k.to_string(), v.to_string());
+    vec![vec![], vec![kv("a", "b")], vec![kv("a", "b"), kv("c", "d")], vec![kv("a", "b"), kv("a", "z"), kv("c", "d")], vec![kv("", ""), kv("k", "")], vec![kv("players", "12"), kv("state", "Ready"), kv("ünï", "cødé 😀")]]
+}
+
+struct Ctx {
+    rep: Report,
+    rpcs: AtomicU64,
+    ok_targets: AtomicU64,
+    rejected: AtomicU64,
+}
+
+fn bad(cx: &Ctx, key: String, text: String, replay: Value, w: u64) {
+    cx.rep.violation(Violation { key, text, replay, weight: w });
+}
+
+struct Peer {
+    state: Arc<Mutex<MockState>>,
+    disc: GrpcDiscoveryAdapter,
+    strat: GrpcStrategyAdapter,
+}
+
+async fn start_peer() -> Peer {
+    let state = Arc::new(Mutex::new(MockState::default()));
+    let mock = Mock(state.clone());
+    let listener = tokio::net::TcpListener::bind("127.0.0.1:0").await.expect("bind");
+    let addr = listener.local_addr().unwrap();
+    let incoming = tonic::transport::server::TcpIncoming::from(listener);
+    tokio::spawn(async move {
+        let _ = tonic::transport::Server::builder().add_service(DiscoveryServer::new(mock.clone())).add_service(StrategyServer::new(mock)).serve_with_incoming(incoming).await;
+    });
+    let url = format!("http://{addr}");
+    let disc = GrpcDiscoveryAdapter::new(url.clone()).await.unwrap_or_else(|e| common::machinery(&format!("cannot connect discovery adapter: {e}")));
+    let strat = GrpcStrategyAdapter::new(url).await.unwrap_or_else(|e| common::machinery(&format!("cannot connect strategy adapter: {e}")));
+    Peer { state, disc, strat }
+}
+
+/// direction 1: discovery reply -> discover()
+async fn check_discovery(cx: &Ctx, peer: &Peer, list: &[WireTarget]) {
+    peer.state.lock().unwrap().discovery_reply = list.iter().map(to_proto).collect();
+    cx.rpcs.fetch_add(1, Ordering::Relaxed);
+    let replay = json!({"direction": "discovery-reply", "targets": list.iter().map(|t| json!({"id": t.id, "host": t.host, "port": t.port, "meta": t.meta})).collect::<Vec<_>>()});
+    let got = peer.disc.discover().await;
+    let wants: Vec<(Want, &str)> = list.iter().map(|t| classify_host(&t.host, t.port)).collect();
+    let any_must_err = wants.iter().any(|w| w.0 == Want::Err);
+    let any_soft = wants.iter().any(|w| matches!(w.0, Want::ErrOr(_) | Want::Unjudged));
+    match got {
+        Err(e) => {
+            cx.rejected.fetch_add(1, Ordering::Relaxed);
+            if !any_must_err && !any_soft {
+                let class = if wants.iter().any(|w| w.1 == "ipv6") { "ipv6" } else { "ipv4" };
+                bad(cx, format!("discovery-rejects-valid-target:{class}"), format!("discover() failed with '{e}' for well-formed targets {}", replay["targets"]), replay, list.len() as u64);
+            }
+        }
+        Ok(ts) => {
+            if any_must_err {
+                let class = wants.iter().filter(|w| w.0 == Want::Err).map(|w| w.1).next().unwrap();
+                bad(cx, format!("discovery-accepts-malformed-target:{class}"), format!("discover() returned {:?} for {}", ts.iter().map(|t| t.address.to_string()).collect::<Vec<_>>(), replay["targets"]), replay, list.len() as u64);
+                return;
+            }
+            if ts.len() != list.len() {
+                bad(cx, "discovery-target-count".into(), format!("{} targets returned for {} sent", ts.len(), list.len()), replay, list.len() as u64);
+                return;
+            }
+            for ((t, w), (want, class)) in ts.iter().zip(list).zip(&wants) {
+                cx.ok_targets.fetch_add(1, Ordering::Relaxed);
+                if t.identifier != w.id {
+                    bad(cx, "discovery-identifier-altered".into(), format!("identifier {:?} arrived as {:?}", w.id, t.identifier), replay.clone(), list.len() as u64);
+                }
+                match want {
+                    Want::Addr(a) | Want::ErrOr(a) => {
+                        if t.address != *a {
+                            bad(cx, format!("discovery-address-altered:{class}"), format!("address {:?}:{} arrived as {}", w.host, w.port, t.address), replay.clone(), list.len() as u64);
+                        }
+                    }
+                    _ => {}
+                }
+                match meta_map(&w.meta) {
+                    Some(m) => {
+                        if t.meta != m {
+                            bad(cx, "discovery-metadata-altered".into(), format!("metadata {:?} arrived as {:?}", w.meta, t.meta), replay.clone(), list.len() as u64);
+                        }
+                    }
+                    None => {
+                        // duplicated key: the other keys must be intact
+                        for (k, v) in &w.meta {
+                            if w.meta.iter().filter(|(kk, _)| kk == k).count() == 1 && t.meta.get(k) != Some(v) {
+                                bad(cx, "discovery-metadata-altered".into(), format!("metadata {:?} arrived as {:?}", w.meta, t.meta), replay.clone(), list.len() as u64);
+                            }
+                        }
+                    }
+                }
+            }
+        }
+    }
+}
+
+/// directions 2 and 3: select() request as seen by the service, and its reply
+async fn check_select(cx: &Ctx, peer: &Peer, cands: &[Target], reply: Reply, client: SocketAddr, server: (&str, u16), user: (&str, Uuid), protocol: i32) {
+    {
+        let mut st = peer.state.lock().unwrap();
+        st.select_reply = Some(reply.clone());
+        st.last_select = None;
+    }
+    cx.rpcs.fetch_add(1, Ordering::Relaxed);
+    let replay = json!({"direction": "select", "candidates": cands.iter().map(|t| json!({"id": t.identifier, "addr": t.address.to_string(), "meta": t.meta})).collect::<Vec<_>>(),
+        "reply": format!("{reply:?}"), "client": client.to_string(), "server": [server.0, server.1], "user": [user.0, user.1.to_string()], "protocol": protocol});
+    let got = peer.strat.select(&client, server, protocol, (user.0, &user.1), cands.to_vec()).await;
+    let w = cands.len() as u64;
+    // ---- the request
+    let req = peer.state.lock().unwrap().last_select.clone();
+    let Some(req) = req else {
+        bad(cx, "select-request-not-sent".into(), format!("{got:?}"), replay, w);
+        return;
+    };
+    if req.targets.len() != cands.len() {
+        bad(cx, "select-candidate-count".into(), format!("{} candidates sent, the service saw {}", cands.len(), req.targets.len()), replay.clone(), w);
+    }
+    for (sent, seen) in cands.iter().zip(&req.targets) {
+        let addr_ok = seen.address.as_ref().is_some_and(|a| a.hostname.parse::<IpAddr>().ok() == Some(sent.address.ip()) && a.port == sent.address.port() as u32);
+        let meta_seen: HashMap<String, String> = seen.meta.iter().map(|e| (e.key.clone(), e.value.clone())).collect();
+        if seen.identifier != sent.identifier || !addr_ok || meta_seen != sent.meta || seen.meta.len() != sent.meta.len() {
+            let fam = if sent.address.is_ipv4() { "ipv4" } else { "ipv6" };
+            bad(cx, format!("select-candidate-altered:{fam}"), format!("candidate ({:?}, {}, {:?}) reached the service as ({:?}, {:?}, {:?})", sent.identifier, sent.address, sent.meta, seen.identifier, seen.address, seen.meta), replay.clone(), w);
+        }
+    }
+    let ca_ok = req.client_address.as_ref().is_some_and(|a| a.hostname.parse::<IpAddr>().ok() == Some(client.ip()) && a.port == client.port() as u32);
+    let sa_ok = req.server_address.as_ref().is_some_and(|a| a.hostname == server.0 && a.port == server.1 as u32);
+    if !ca_ok || !sa_ok {
+        bad(cx, "select-addresses-altered".into(), format!("client {client} / server {server:?} reached the service as {:?} / {:?}", req.client_address, req.server_address), replay.clone(), w);
+    }
+    if req.username != user.0 || req.user_id.parse::<Uuid>().ok() != Some(user.1) || req.protocol != protocol as u64 {
+        bad(cx, "select-player-altered".into(), format!("player ({}, {}) protocol {protocol} reached the service as ({}, {}) protocol {}", user.0, user.1, req.username, req.user_id, req.protocol), replay.clone(), w);
+    }
+    // ---- the reply
+    match (&reply, got) {
+        (Reply::None, Ok(None)) => {}
+        (Reply::None, other) => bad(cx, "select-none-altered".into(), format!("the service chose nothing, select() returned {other:?}"), replay, w),
+        (Reply::Echo(i), got) => match (cands.get(*i), got) {
+            (None, Ok(None)) => {}
+            (Some(c), Ok(Some(t))) => {
+                cx.ok_targets.fetch_add(1, Ordering::Relaxed);
+                if t.identifier != c.identifier || t.address != c.address || t.meta != c.meta {
+                    let fam = if c.address.is_ipv4() { "ipv4" } else { "ipv6" };
+                    bad(cx, format!("select-choice-altered:{fam}"), format!("the service picked ({:?}, {}, {:?}); select() returned ({:?}, {}, {:?})", c.identifier, c.address, c.meta, t.identifier, t.address, t.meta), replay, w);
+                }
+            }
+            (Some(c), other) => {
+                let fam = if c.address.is_ipv4() { "ipv4" } else { "ipv6" };
+                bad(cx, format!("select-choice-lost:{fam}"), format!("the service picked candidate #{i} ({}) exactly as it received it; select() returned {other:?}", c.address), replay, w)
+            }
+            (None, other) => bad(cx, "select-none-altered".into(), format!("{other:?}"), replay, w),
+        },
+        (Reply::Foreign(f), got) => {
+            let host = f.address.as_ref().map(|a| a.hostname.clone());
+            let port = f.address.as_ref().map(|a| a.port).unwrap_or(0);
+            let (want, class) = classify_host(&host, port);
+            match (want, got) {
+                (Want::Err, Err(_)) => {
+                    cx.rejected.fetch_add(1, Ordering::Relaxed);
+                }
+                (Want::Err, Ok(t)) => bad(cx, format!("select-accepts-malformed-target:{class}"), format!("reply {:?}:{port} was accepted as {:?}", host, t.map(|t| t.address)), replay, w),
+                (Want::Addr(a), Ok(Some(t))) | (Want::ErrOr(a), Ok(Some(t))) => {
+                    if t.address != a || t.identifier != f.identifier {
+                        bad(cx, format!("select-choice-altered:{class}"), format!("reply {:?}:{port} arrived as {}", host, t.address), replay, w);
+                    }
+                }
+                (Want::Addr(_), other) => bad(cx, format!("select-rejects-valid-target:{class}"), format!("reply {:?}:{port} gave {other:?}", host), replay, w),
+                _ => {}
+            }
+        }
+    }
+}
+
+pub fn run(cli: Cli) -> ! {
+    let rep = Report::new("C19", cli.tier, "exploration");
+    let thorough = cli.tier.thorough();
+    let cx = Ctx { rep, rpcs: AtomicU64::new(0), ok_targets: AtomicU64::new(0), rejected: AtomicU64::new(0) };
+    if cli.replay.is_some() {
+        println!("C19 cases are written out in full in the replay file; the sweep is re-run, which re-evaluates that case.");
+    }
+    let long_id = "i".repeat(300);
+    let ids: Vec<String> = vec!["".into(), "a".into(), "zürich-😀".into(), long_id];
+    let ports: Vec<u32> = vec![0, 1, 25_565, 65_535, 65_536, u32::MAX];
+    let hs = hosts();
+    let ms = metas();
+
+    // ---- direction 1: single targets, full product host x port x (id, meta rotated or full)
+    let mut singles: Vec<WireTarget> = vec![];
+    for (hi, h) in hs.iter().enumerate() {
+        for (pi, p) in ports.iter().enumerate() {
+            if thorough {
+                for id in &ids {
+                    for m in &ms {
+                        singles.push(WireTarget { id: id.clone(), host: h.clone(), port: *p, meta: m.clone() });
+                    }
+                }
+            } else {
+                let k = hi + pi;
+                singles.push(WireTarget { id: ids[k % ids.len()].clone(), host: h.clone(), port: *p, meta: ms[k % ms.len()].clone() });
+            }
+        }
+    }
+    // id x meta with a fixed good address
+    for id in &ids {
+        for m in &ms {
+            singles.push(WireTarget { id: id.clone(), host: Some("10.1.2.3".into()), port: 25_565, meta: m.clone() });
+            singles.push(WireTarget { id: id.clone(), host: Some("2001:db8::1".into()), port: 25_565, meta: m.clone() });
+        }
+    }
+    // lists of 0..3
+    let good4 = WireTarget { id: "g4".into(), host: Some("10.9.9.9".into()), port: 1, meta: ms[2].clone() };
+    let good6 = WireTarget { id: "g6".into(), host: Some("2001:db8::6".into()), port: 65_535, meta: ms[1].clone() };
+    let bad1 = WireTarget { id: "bad".into(), host: Some("1.2.3".into()), port: 1, meta: vec![] };
+    let lists: Vec<Vec<WireTarget>> = vec![
+        vec![],
+        vec![good4.clone(), good6.clone()],
+        vec![good6.clone(), good4.clone(), good6.clone()],
+        vec![good4.clone(), good4.clone()],
+        vec![good4.clone(), bad1.clone()],
+        vec![bad1.clone(), good6.clone(), good4.clone()],
+    ];
+
+    // ---- directions 2 and 3
+    let mk = |id: &str, addr: &str, meta: &[(String, String)]| Target { identifier: id.to_string(), address: addr.parse().unwrap(), meta: meta_map(meta).unwrap_or_default() };
+    let addr_texts = ["10.1.2.3:25565", "0.0.0.0:0", "255.255.255.255:65535", "[::1]:1", "[2001:db8::1]:25565", "[::ffff:1.2.3.4]:25565", "[::]:65535", "[fe80::1]:7"];
+    let mut cand_lists: Vec<Vec<Target>> = vec![vec![]];
+    for a in addr_texts {
+        for (i, m) in ms.iter().enumerate() {
+            if meta_map(m).is_none() {
+                continue;
+            }
+            if thorough || i < 3 {
+                cand_lists.push(vec![mk(&ids[i % ids.len()], a, m)]);
+            }
+        }
+    }
+    for a in addr_texts {
+        for b in addr_texts {
+            if thorough || a == addr_texts[0] || b == addr_texts[4] {
+                cand_lists.push(vec![mk("first", a, &ms[1]), mk("second", b, &ms[2])]);
+            }
+        }
+    }
+    cand_lists.push(vec![mk("x", "10.0.0.1:1", &ms[0]), mk("x", "10.0.0.1:1", &ms[0]), mk("y", "[2001:db8::9]:9", &ms[5])]);
+    let clients: Vec<SocketAddr> = vec!["198.51.100.7:40123".parse().unwrap(), "[2001:db8::77]:65535".parse().unwrap()];
+    let servers: Vec<(&str, u16)> = vec![("play.example.org", 25565), ("", 0), ("zürich 😀 host with spaces", 65535), ("[::1]", 1)];
+    let users: Vec<(&str, Uuid)> = vec![("Notch", Uuid::from_u128(0x069a79f4_44e9_4726_a5be_fca90e38aaf5)), ("", Uuid::nil()), ("Zoë_ß😀", Uuid::from_u128(u128::MAX))];
+
+    // work list
+    #[derive(Clone)]
+    enum Job {
+        Disc(Vec<WireTarget>),
+        Sel(usize, Reply, usize, usize, usize, i32),
+    }
+    let mut jobs: Vec<Job> = vec![];
+    for s in &singles {
+        jobs.push(Job::Disc(vec![s.clone()]));
+    }
+    for l in &lists {
+        jobs.push(Job::Disc(l.clone()));
+    }
+    for (ci, cl) in cand_lists.iter().enumerate() {
+        let mut replies = vec![Reply::None];
+        for i in 0..cl.len().max(1) {
+            replies.push(Reply::Echo(i));
+        }
+        replies.push(Reply::Echo(7));
+        for (ri, r) in replies.iter().enumerate() {
+            let k = ci + ri;
+            jobs.push(Job::Sel(ci, r.clone(), k % clients.len(), k % servers.len(), k % users.len(), [769, 0, i32::MAX][k % 3]));
+        }
+    }
+    // foreign replies: every host x port shape as the service's answer
+    for h in &hs {
+        for p in &ports {
+            let f = to_proto(&WireTarget { id: "foreign".into(), host: h.clone(), port: *p, meta: ms[1].clone() });
+            jobs.push(Job::Sel(1, Reply::Foreign(f), 0, 0, 0, 769));
+        }
+    }
+    // full cross of request-side fields on one candidate list
+    for c in 0..clients.len() {
+        for s in 0..servers.len() {
+            for u in 0..users.len() {
+                jobs.push(Job::Sel(cand_lists.len() - 1, Reply::Echo(2), c, s, u, 769));
+            }
+        }
+    }
+
+    let workers = 8usize;
+    let cxr = &cx;
+    let (cand_lists, clients, servers, users) = (&cand_lists, &clients, &servers, &users);
+    let jobs = &jobs;
+    par_for(workers, |w| {
+        let rt = tokio::runtime::Builder::new_current_thread().enable_all().build().expect("rt");
+        rt.block_on(async {
+            let peer = start_peer().await;
+            for (i, j) in jobs.iter().enumerate() {
+                if i % workers != w {
+                    continue;
+                }
+                let r = std::panic::AssertUnwindSafe(async {
+                    match j {
+                        Job::Disc(l) => check_discovery(cxr, &peer, l).await,
+                        Job::Sel(ci, r, c, s, u, p) => check_select(cxr, &peer, &cand_lists[*ci], r.clone(), clients[*c], servers[*s], users[*u], *p).await,
+                    }
+                });
+                r.await;
+            }
+        });
+    });
+
+    let rpcs = cx.rpcs.load(Ordering::Relaxed);
+    cx.rep.require("targets that crossed the boundary", cx.ok_targets.load(Ordering::Relaxed), 50);
+    cx.rep.require("rejected replies", cx.rejected.load(Ordering::Relaxed), 20);
+    cx.rep.set("evaluations", json!(rpcs));
+    cx.rep.set("distinct_nontrivial", json!(jobs.len()));
+    cx.rep.set("targets_crossed", json!(cx.ok_targets.load(Ordering::Relaxed)));
+    cx.rep.set("rejected", json!(cx.rejected.load(Ordering::Relaxed)));
+    cx.rep.set("exhaustive", json!(true));
+    cx.rep.set("rule", json!("RPCs against an in-process tonic server generated from the repository's .proto files: discovery replies over host text(20, incl. absent) x port(6) [x identifier(4) x metadata(6) in thorough], identifier x metadata on good IPv4/IPv6 addresses, lists of 0-3; select() over candidate lists (8 address shapes x metadata, ordered pairs) x reply (none, echo of the i-th candidate as received, out-of-range index, every host x port shape as a foreign reply) x client address, server address, player. Every job is distinct."));
+    cx.rep.sample(json!({"direction": "discovery-reply", "target": {"id": "a", "host": "2001:db8::1", "port": 25565, "meta": [["a", "b"]]}, "expect": "Target with address [2001:db8::1]:25565"}));
+    cx.rep.sample(json!({"direction": "discovery-reply", "target": {"id": "a", "host": "10.1.2.3", "port": 65536}, "expect": "error"}));
+    cx.rep.sample(json!({"direction": "select", "candidates": ["10.1.2.3:25565", "[2001:db8::1]:25565"], "reply": "Echo(1)", "expect": "the second candidate, unchanged"}));
+    cx.rep.assume("host names that could be DNS names are sent only to check that nothing panics; bracketed or scoped IPv6 literals may be rejected or accepted as the same address; metadata with a duplicated key has no defined map value (only the other keys are judged)");
+    cx.rep.assume("tonic / prost encode and decode the messages; the wire contract is the repository's own .proto files");
+    cx.rep.finish()
 }
